@@ -10,15 +10,18 @@ MeanEdges == {<<-6, 0, 6>>, <<-6, -2, 2, 6>>, <<-2, 2>>}
 SrcEdges == {<<0, 2, 4>>, <<0, 1, 4, 6>>, <<1, 3>>}
 DstEdges == {<<0, 2, 4>>, <<0, 4>>, <<0, 1, 2, 3, 4, 5, 6>>, <<-1, 3, 7>>, <<0, 6>>, <<0, 3, 6>>, <<1, 3>>, <<2, 3>>}
 Counts == {0, 1, 3}
+Encl == {0, 5}          \* count of an additional source class that ENCLOSES all the others (0: none) — nested source classes
+SrcClasses(i) == IF i.encl = 0 THEN ClassesOfEdges(i.h, i.src)
+                 ELSE Append(ClassesOfEdges(i.h, i.src), <<i.src[1], i.src[Len(i.src)], i.encl>>)
 Init ==
   \/ /\ part = "collective" /\ inp \in [row : Loads \X Loads, c : {-2, 2, 3}, d : {-3, 5}]
      /\ out = [amp2 |-> Amp2(inp.row), mean2 |-> Mean2(inp.row), upper |-> Upper(inp.row), lower |-> Lower(inp.row), R |-> RRatio(inp.row),
                scaled |-> Scale(inp.row, inp.c), shifted |-> Shift(inp.row, inp.d)]
   \/ /\ part = "hist" /\ inp \in [rows : RowsSet, e : EdgeSets, em : MeanEdges]
      /\ out = [range |-> Hist(inp.e, [k \in 1..Len(inp.rows) |-> Amp2(inp.rows[k])]), matrix |-> Hist2(inp.e, inp.em, inp.rows)]
-  \/ /\ part = "rebin" /\ inp \in {[h |-> h, src |-> s, dst |-> d] : s \in SrcEdges, d \in DstEdges, h \in UNION {[1..n -> Counts] : n \in 1..3}}
+  \/ /\ part = "rebin" /\ inp \in {[h |-> h, src |-> s, dst |-> d, encl |-> c] : s \in SrcEdges, d \in DstEdges, h \in UNION {[1..n -> Counts] : n \in 1..3}, c \in Encl}
      /\ Len(inp.h) = Len(inp.src) - 1
-     /\ out = [rebinned |-> Rebin(inp.h, inp.src, inp.dst)]
+     /\ out = [rebinned |-> RebinC(SrcClasses(inp), inp.dst)]
 Next == UNCHANGED vars
 Spec == Init /\ [][Next]_vars
 
@@ -37,6 +40,6 @@ RangeIsMarginal == part = "hist" =>
   ((\A k \in 1..Len(inp.rows) : Covered(inp.em, Mean2(inp.rows[k]))) =>
      \A i \in 1..Len(out.range) : out.range[i] = SumSeq(out.matrix[i]))
 (* re-binning conserves the total for covering gap-free binnings, is the identity for the same binning, and composes on totals *)
-RebinConserves == part = "rebin" => (Covers(inp.dst, inp.src) => RSum(out.rebinned) = <<SumSeq(inp.h), 1>>)
-RebinIdentity == (part = "rebin" /\ inp.dst = inp.src) => out.rebinned = [i \in 1..Len(inp.h) |-> <<inp.h[i], 1>>]
+RebinConserves == part = "rebin" => (Covers(inp.dst, inp.src) => RSum(out.rebinned) = <<SumSeq(inp.h) + inp.encl, 1>>)
+RebinIdentity == (part = "rebin" /\ inp.dst = inp.src /\ inp.encl = 0) => out.rebinned = [i \in 1..Len(inp.h) |-> <<inp.h[i], 1>>]
 =============================================================================
